@@ -13,3 +13,48 @@ let kernel_of_string = function
   | "KDivVec" -> KDivVec | s -> failwith ("unknown kernel " ^ s)
 
 let split_ws s = List.filter (fun x -> x <> "") (String.split_on_char ' ' s)
+
+(* ---- Z <-> hex ---- *)
+let rec pos_of_bits_msb (acc : positive option) (bits : bool list) : positive option =
+  match bits with
+  | [] -> acc
+  | b :: r ->
+      let acc' = match acc with
+        | None -> if b then Some XH else None
+        | Some p -> Some (if b then XI p else XO p) in
+      pos_of_bits_msb acc' r
+
+let z_of_hex s : z =
+  let bits = ref [] in
+  String.iter (fun c ->
+    let d = match c with
+      | '0'..'9' -> Char.code c - 48 | 'a'..'f' -> Char.code c - 87 | 'A'..'F' -> Char.code c - 55
+      | _ -> failwith ("bad hex " ^ s) in
+    bits := !bits @ [d land 8 <> 0; d land 4 <> 0; d land 2 <> 0; d land 1 <> 0]) s;
+  match pos_of_bits_msb None !bits with None -> Z0 | Some p -> Zpos p
+
+let rec bits_lsb_of_pos = function XH -> [true] | XO p -> false :: bits_lsb_of_pos p | XI p -> true :: bits_lsb_of_pos p
+
+(* non-negative z < 2^(4*digits) as fixed-width lowercase hex *)
+let hex_of_z (digits : int) (x : z) =
+  match x with
+  | Zneg _ -> "NEG"
+  | _ ->
+    let bits = match x with Z0 -> [] | Zpos p -> bits_lsb_of_pos p | Zneg _ -> [] in
+    let arr = Array.make (digits * 4) false in
+    List.iteri (fun i b -> if i < digits * 4 then arr.(i) <- b else if b then failwith "hex overflow") bits;
+    String.init digits (fun k ->
+      let base = (digits - 1 - k) * 4 in
+      let d = (if arr.(base) then 1 else 0) + (if arr.(base+1) then 2 else 0)
+              + (if arr.(base+2) then 4 else 0) + (if arr.(base+3) then 8 else 0) in
+      "0123456789abcdef".[d])
+
+let ty_of_string = function
+  | "i8" -> I8 | "i16" -> I16 | "i32" -> I32 | "i64" -> I64 | "u8" -> U8 | "u16" -> U16 | "u32" -> U32
+  | "u64" -> U64 | "f32" -> F32 | "f64" -> F64 | s -> failwith ("unknown type " ^ s)
+let reg_of_string = function
+  | "Fallback" -> Fallback | "Avx2" -> Avx2 | "Avx2Fma" -> Avx2Fma | "Avx512" -> Avx512 | "Neon" -> Neon
+  | s -> failwith ("unknown register " ^ s)
+let ty_digits = function I8 | U8 -> 2 | I16 | U16 -> 4 | I32 | U32 | F32 -> 8 | I64 | U64 | F64 -> 16
+
+let rec take n l = if n = 0 then ([], l) else match l with [] -> failwith "short case line" | x :: r -> let (a, b) = take (n - 1) r in (x :: a, b)
